@@ -472,3 +472,6 @@ B('C12.insert-books-before-position-check', ['C12'], [(P + 'common/base.py', "  
 # the length a DNS record parser demands up front against the shortest RDATA the specification allows
 B('C08.rrsig-demands-too-much', ['C08'], [(P + 'dnsrec/record.py', "    HEADER_SIZE = 19\n", "    HEADER_SIZE = 20\n")], mention=['C08.R13'])
 N('benign.rrsig-demands-fixed-part-only', [(P + 'dnsrec/record.py', "    HEADER_SIZE = 19\n", "    HEADER_SIZE = 18\n")])
+# attr.ib(<validator>): the first positional argument is the default
+B('C01.validator-in-default-position', ['C01'], [(P + 'ssh/key.py', "    signature_data = attr.ib(validator=attr.validators.instance_of((bytes, bytearray)))",
+  "    signature_data = attr.ib(attr.validators.instance_of((bytes, bytearray)))")], mention=['C01.R17', 'signature_data'])
